@@ -77,11 +77,25 @@ def plan_C01(tier, seed):
                                  workers=5, parallel=3), "suite2020", 3000)
 
 
+def with_lifecycle(plan, prefix, tier):
+    """The draft a $schema-less loaded document is read under is the root's, whatever was resolved before: all
+    histories of Lifecycle.tla over a shared Loader document replayed into the code."""
+    life = tlc(prefix + "_lifecycle", "MC_Lifecycle", {"DEV_MutateLoadedDoc": "FALSE", "MaxHist": 3 if tier == "quick" else 4},
+               ["Deterministic", "Pure", "Emit"], workers=4)
+    plan["tlc"].append(life)
+    plan["replay"].append(dict(name=prefix + "_history", family="history", inputs=[life["name"]], kinds=["history"]))
+    plan["rule"] += (" Histories: Lifecycle.tla enumerates every sequence of Resolve/Validate/Marshal calls (length 3, thorough 4) over a "
+                     "draft-07 root and a 2020-12 root that share ONE $schema-less remote document object through a memoising "
+                     "Loader; the draft the document is read under (visible as the Resolve result and the verdicts) must be the "
+                     "current root's, whatever was resolved earlier.")
+    return plan
+
+
 def plan_C02(tier, seed):
     if tier == "quick":
-        return with_traces(eval_plan("c02", [], [("G1", 2), ("G2", 2), ("G3", 1), ("G4", 1), ("G5", 1)]), "suite7", 300)
-    return with_traces(eval_plan("c02", [], [("G1", 3), ("G2", 3), ("G3", 1), ("G4", 1), ("G5", 1)], workers=5, parallel=3),
-                       "suite7", 3000)
+        return with_lifecycle(with_traces(eval_plan("c02", [], [("G1", 2), ("G2", 2), ("G3", 1), ("G4", 1), ("G5", 1)]), "suite7", 300), "c02", tier)
+    return with_lifecycle(with_traces(eval_plan("c02", [], [("G1", 3), ("G2", 3), ("G3", 1), ("G4", 1), ("G5", 1)], workers=5, parallel=3),
+                                      "suite7", 3000), "c02", tier)
 
 
 def plan_C07(tier, seed):
@@ -288,7 +302,7 @@ def plan_C20(tier, seed):
 def plan_C14(tier, seed):
     life = tlc("c14_lifecycle", "MC_Lifecycle", {"DEV_MutateLoadedDoc": "FALSE", "MaxHist": 3 if tier == "quick" else 4},
                ["Deterministic", "Pure", "Emit"], workers=4)
-    ev = eval_jobs("c14", [("F3", 2), ("F5", 1), ("U1", 1), ("DUP", 1), ("W", 1), ("FK", 1)], "2020") + eval_jobs("c14", [("G2", 2), ("G5", 1)], "d7")
+    ev = eval_jobs("c14", [("F3", 2), ("F5", 1), ("U1", 1), ("DUP", 1), ("MX", 1), ("W", 1), ("FK", 1)], "2020") + eval_jobs("c14", [("G2", 2), ("G5", 1)], "d7")
     rs = res_jobs("c14", [("R2", 1)])
     lit = [cod_job("c14", "PO", 2, ["OrderRefines"]), cod_job("c14", "RT", 1, ["RoundTripKeepsMeaning", "KeepsKeywords"])]
     rv = rep_job("c14", "RV", 1, [], workers=6)
@@ -304,7 +318,7 @@ def plan_C14(tier, seed):
              "a 2020-12 root and one remote document shared through a memoising Loader; every call's result must be the "
              "history-independent Expected value and no caller-owned object may change (deep reflective snapshots around every "
              "call). (b) the universes of the map-heavy evaluator families (F3, F5, U1, G2, G5), of documents with two resources under "
-             "one URI (DUP: no prediction, only determinism) and of the Loader family R2 "
+             "one URI and of universes mixing the two dialects (DUP, MX: no prediction, only determinism) and of the Loader family R2 "
              "replayed with snapshots of schema, Loader documents and instance around every call, each Resolve done eight times, "
              "each Validate three times, Marshal before/after, and the whole replay repeated in 2 (thorough 4) fresh "
              "processes whose digests of verdict vectors and bytes must be identical. (c) Schema LITERALS of the codec families (every "
@@ -350,7 +364,7 @@ def plan_C10(tier, seed):
     jobs = [tlc("c10_%s" % f, "MC_Total", {"Family": q(f), "K": k}, ["Emit"], workers=6) for f, k in fams]
     # the malformed-reference and fault universes of the resolver, and represented instances
     jobs += res_jobs("c10", [("R2", 1)])
-    jobs += eval_jobs("c10", [("G3", 1)], "d7") + eval_jobs("c10", [("F5", 1), ("DUP", 1)], "2020")
+    jobs += eval_jobs("c10", [("G3", 1)], "d7") + eval_jobs("c10", [("F5", 1), ("DUP", 1), ("MX", 1)], "2020")
     jobs += [tlc("c10_P2", "MC_Pointer", {"DEV_AtoiIndex": "FALSE", "MUT_UnescapeOrder": "FALSE", "K": 2, "Family": q("P2")}, ["PointerRefines", "Emit"], workers=2)]
     rep = rep_job("c10", "RV", 1, [], workers=6)
     # For / ForType on every type universe of MC_Infer (incl. recursive and unsupported types, all ForOptions)
@@ -370,7 +384,9 @@ def plan_C10(tier, seed):
              "children, cycles and nil children: Resolve succeeds iff the graph is a tree; BU: malformed URIs, fragments in $id, "
              "bad regexps, conflicting union fields, bad BaseURI; LD: Loader misbehaviours (error, nil, wrong document, the root "
              "itself, one object for two URIs, self loops, mutual references, chains, broken documents); plus the resolver's "
-             "fault universes (R2), the invalid JSON-Pointer fragments of MC_Pointer P2 (signs, '-', indexes at and beyond the machine "
+             "fault universes (R2), universes mixing documents of the two supported dialects with keywords of the other one (MC_Eval MX: "
+             "$dynamicRef / $dynamicAnchor / $anchor in a draft-07-declaring document loaded by a 2020-12 root and the reverse; no "
+             "prediction, every Resolve and Validate must return), the invalid JSON-Pointer fragments of MC_Pointer P2 (signs, '-', indexes at and beyond the machine "
              "word, absent keywords) and represented instances (RV); For/ForType (twice, then Resolve) on every type of the MC_Infer "
              "families T, S, X and O (unsupported kinds plain and nested, with and without IgnoreInvalidTypes, described fields, "
              "self-recursive types through pointers/slices/maps/nested structs, TypeSchemas overrides). Non-trivial = every malformed case; distinct by case text",
